@@ -287,7 +287,7 @@ theorem reorder_step3 (m : Mgr) (ext : Nat → Nat) (h : Good3 m ext) (op : UOp2
   rcases hop with ⟨sch, x, y, rfl⟩ | ⟨sch, rfl⟩ | ⟨sch, o, rfl⟩
   · exact step3_of_reorder m ext h sch _ _ (swap_keep ext _ (h.reorderInv sch) x y) hg
   · exact step3_of_reorder m ext h sch _ _ (sift_keep ext _ (h.reorderInv sch)) hg
-  · exact step3_of_reorder m ext h sch _ _ (reorderTo_keep' ext _ (h.reorderInv sch) o) hg
+  · exact step3_of_reorder m ext h sch _ _ (reorderTo_keepR ext _ (h.reorderInv sch) o) hg
 
 theorem undeclare_step3 (m : Mgr) (ext : Nat → Nat) (h : Good3 m ext) (vrs : List String) :
     Step3 m ext ext (mapRes (fun _ => Res.unit) (undeclareVars vrs m)) := by
